@@ -1,6 +1,8 @@
 (* C15 model: the public editing operations of pgmpy's BayesianNetwork (pgmpy/models/BayesianNetwork.py
    on top of pgmpy/base/DAG.py and networkx.DiGraph), DynamicBayesianNetwork.add_edge and
-   JunctionTree.add_edge, as coded now (after fix 6ab8e3d: copy() gives the copy its own latents set).
+   JunctionTree.add_edge, as coded now (after the fix: commits 6ab8e3d copy() gives the copy its own latents set, 3ff3f12 do()
+   skips nodes without a CPD, 2ac6a55 remove_node marginalises only CPDs that list the node, 1e667dd
+   JunctionTree.add_edge rejects u == v, 984e212 remove_cpds deletes the resolved object by identity).
    Executable definitions only.
 
    Representation choices (all validated by the correspondence run):
@@ -212,19 +214,20 @@ Fixpoint m_add_cpds (s : state) (m : bn) (cs : list cpd) : state * bn * out :=
               end
   end.
 
-(* list.remove(target): first element that IS target or == target (DiscreteFactor.__eq__) *)
-Fixpoint list_remove_eq (s : state) (target : nat) (ls : list nat) : list nat :=
+(* remove_cpds (since 984e212): the argument is resolved with get_cpds unless it is a factor object, and
+   THAT object is deleted by identity; list.remove (value comparison with DiscreteFactor.__eq__) is only
+   the fall-back for a CPD object that is not in the list *)
+Fixpoint remove_loc (t : nat) (ls : list nat) : list nat :=
   match ls with
   | [] => []
-  | l :: r => if Nat.eqb l target || cpd_feq (get_c s l) (get_c s target) then r
-              else l :: list_remove_eq s target r
+  | l :: r => if Nat.eqb l t then r else l :: remove_loc t r
   end.
-(* remove_cpds(name): get_cpds(name) then list.remove; None = ValueError *)
+(* remove_cpds(name): None = ValueError *)
 Definition m_remove_cpd (s : state) (m : bn) (x : node) : option bn :=
   match get_cpds s m x with
   | None => None
   | Some None => None            (* list.remove(None): x not in list *)
-  | Some (Some l) => Some (set_bcpds m (list_remove_eq s l (bcpds m)))
+  | Some (Some l) => Some (set_bcpds m (remove_loc l (bcpds m)))
   end.
 Fixpoint m_remove_cpds (s : state) (m : bn) (xs : list node) : bn * out :=
   match xs with
@@ -232,6 +235,22 @@ Fixpoint m_remove_cpds (s : state) (m : bn) (xs : list node) : bn * out :=
   | x :: r => match m_remove_cpd s m x with
               | None => (m, Err EValue)
               | Some m' => m_remove_cpds s m' r
+              end
+  end.
+(* remove_cpds(obj) for a CPD object that is not one of the model's objects: list.remove(obj), i.e. the
+   first element e with e == obj; None = ValueError (x not in list) *)
+Fixpoint list_remove_val (s : state) (c : cpd) (ls : list nat) : option (list nat) :=
+  match ls with
+  | [] => None
+  | l :: r => if cpd_feq (get_c s l) c then Some r
+              else option_map (cons l) (list_remove_val s c r)
+  end.
+Fixpoint m_remove_cpd_objs (s : state) (m : bn) (cs : list cpd) : bn * out :=
+  match cs with
+  | [] => (m, Ok)
+  | c :: r => match list_remove_val s c (bcpds m) with
+              | None => (m, Err EValue)
+              | Some ls => m_remove_cpd_objs s (set_bcpds m ls) r
               end
   end.
 
@@ -243,10 +262,13 @@ Fixpoint marg_children (s : state) (m : bn) (x : node) (chs : list node) : state
               | None => (s, Err EValue)
               | Some None => marg_children s m x r
               | Some (Some l) =>
-                  match cpd_marginalize (get_c s l) [x] with
-                  | None => (s, Err EValue)
-                  | Some c' => marg_children (set_hc s (upd (hc s) l c')) m x r
-                  end
+                  (* since 2ac6a55: only when the removed node is among the CPD's parents *)
+                  if memn x (c_ev (get_c s l))
+                  then match cpd_marginalize (get_c s l) [x] with
+                       | None => (s, Err EValue)
+                       | Some c' => marg_children (set_hc s (upd (hc s) l c')) m x r
+                       end
+                  else marg_children s m x r
               end
   end.
 Definition m_remove_node (s : state) (m : bn) (x : node) : state * bn * out :=
@@ -259,7 +281,7 @@ Definition m_remove_node (s : state) (m : bn) (x : node) : state * bn * out :=
       | Some oc =>
           let m1 := match oc with
                     | None => m
-                    | Some l => set_bcpds m (list_remove_eq s1 l (bcpds m))
+                    | Some l => set_bcpds m (remove_loc l (bcpds m))
                     end in
           (* self.latents = self.latents - {node}: a NEW set object *)
           let nl := length (hl s1) in
@@ -298,7 +320,7 @@ Fixpoint do_cpds (s : state) (m : bn) (xs : list node) : state * out :=
   | [] => (s, Ok)
   | x :: r => match get_cpds s m x with
               | None => (s, Err EValue)
-              | Some None => (s, Err EAttr)        (* None.marginalize *)
+              | Some None => do_cpds s m r          (* since 3ff3f12: nodes without a CPD are skipped *)
               | Some (Some l) =>
                   let c := get_c s l in
                   match cpd_marginalize c (c_ev c) with
@@ -337,6 +359,7 @@ Inductive op :=
 | RemoveNodes (a : nat) (xs : list node)                     (* remove_node / remove_nodes_from *)
 | AddCpds (a : nat) (cs : list cpd)
 | RemoveCpds (a : nat) (xs : list node)
+| RemoveCpdObjs (a : nat) (cs : list cpd)                    (* remove_cpds(obj) with foreign objects *)
 | Do (a : nat) (xs : list node) (inplace : bool)
 | Copy (a : nat)
 | RandomCpds (a : nat) (isdict : bool) (ns : list (node * nat)) (draws : list Qc) (inplace : bool).
@@ -381,6 +404,11 @@ Definition step (s : state) (o : op) : state * out :=
       match nth_error (ms s) a with
       | None => (s, Err EBadId)
       | Some m => let (m', o) := m_remove_cpds s m xs in (commit s a m', o)
+      end
+  | RemoveCpdObjs a cs =>
+      match nth_error (ms s) a with
+      | None => (s, Err EBadId)
+      | Some m => let (m', o) := m_remove_cpd_objs s m cs in (commit s a m', o)
       end
   | Do a xs inplace =>
       match nth_error (ms s) a with
@@ -491,7 +519,8 @@ Inductive jop :=
 | JAddEdges (es : list ((nat * list nat) * (nat * list nat))).   (* ((u, vars u), (v, vars v)) *)
 Definition jt_add_edge (g : digraph) (e : (nat * list nat) * (nat * list nat)) : digraph * out :=
   let '((u, cu), (v, cv)) := e in
-  if memn u (nodes g) && memn v (nodes g) && has_path (sym g) u v then (g, Err EValue)
+  (* since 1e667dd: u == v is rejected first *)
+  if Nat.eqb u v || (memn u (nodes g) && memn v (nodes g) && has_path (sym g) u v) then (g, Err EValue)
   else if disjointb cu cv then (g, Err EValue)          (* ClusterGraph.add_edge: no sepset *)
   else (g_add_edge g u v, Ok).
 Fixpoint jt_add_edges (g : digraph) (es : list ((nat * list nat) * (nat * list nat))) : digraph * out :=
